@@ -116,6 +116,26 @@ def op_selinfos(js, s, lits):
     return 'ok ' + ' '.join(enc_info(ci) for ci in infos)
 
 
-for _n, _f in (('starcount', op_starcount), ('starvars', op_starvars), ('starmarker', op_starmarker), ('trsel', op_trsel), ('updpairs', op_updpairs),
+def op_clidialect(d, pol, fmt):
+    """the dialects run_with_python_csv really hands to query_csv (query_csv itself replaced by a recorder)"""
+    import argparse
+    from rbql import rbql_main, rbql_csv
+    seen = {}
+
+    def recorder(query, input_path, delim, policy, output_path, out_delim, out_policy, *rest, **kw):
+        seen['r'] = (delim, policy, out_delim, out_policy)
+    saved = rbql_csv.query_csv
+    rbql_csv.query_csv = recorder
+    try:
+        args = argparse.Namespace(debug_mode=False, delim=dec_str(d), policy=None if pol == '~' else pol, query='select *', with_headers=False, input=None, output=None,
+                                  encoding='utf-8', out_format=fmt, init_source_file=None, comment_prefix=None, color=False)
+        rbql_main.run_with_python_csv(args, False)
+    finally:
+        rbql_csv.query_csv = saved
+    r = seen['r']
+    return '%s %s %s %s' % (enc_str(r[0]), r[1], enc_str(r[2]), r[3])
+
+
+for _n, _f in (('clidialect', op_clidialect), ('starcount', op_starcount), ('starvars', op_starvars), ('starmarker', op_starmarker), ('trsel', op_trsel), ('updpairs', op_updpairs),
                ('basicvars', op_basicvars), ('arrayvars', op_arrayvars), ('selinfos', op_selinfos)):
     impl_py.register(_n, _f)
